@@ -68,7 +68,13 @@ func appendIfNotIn(ids []*Identity, chk *Identity) []*Identity {
 // addChildren adds identity r and all of its children to ids
 // deterministically.
 func addChildren(r *Identity, ids []*Identity) []*Identity {
+	n := len(ids)
 	ids = appendIfNotIn(ids, r)
+	if len(ids) == n {
+		// Already visited; this also ends the recursion when the base
+		// statements form a cycle.
+		return ids
+	}
 
 	// Iterate through the values of r.
 	for _, ch := range r.Values {
@@ -185,6 +191,12 @@ func (ms *Modules) resolveIdentities() []error {
 		sort.SliceStable(newValues, func(j, k int) bool {
 			return newValues[j].Name < newValues[k].Name
 		})
+		for _, v := range newValues {
+			if v == i.Identity {
+				errs = append(errs, fmt.Errorf("%s: identity %s is derived from itself", Source(i.Identity), i.Identity.Name))
+				break
+			}
+		}
 		i.Identity.Values = newValues
 	}
 
